@@ -35,6 +35,8 @@ type vfC27Case struct {
 	RefreshExpire int
 	RefreshInfo   string
 	LabelTF       *vfTF // label filter used for targets 2 and 3 (drawn from the whole filter grammar: leaves, and/or/not)
+	Narrow        int  // 0 none; 1 the call names one connection by client id, 2 by session id (then issued once per subject connection)
+	RecoverForeign bool // RecoverSince carries a foreign epoch instead of the empty one
 }
 
 var vfC27SubOpts = []string{"ExpireAt", "ChannelInfo", "EmitPresence", "EmitJoinLeave", "PushJoinLeave", "Positioning", "Recovery", "RecoveryMode", "Data", "RecoverSince", "AutoCacheRecover", "Source", "HistoryMetaTTL"}
@@ -48,7 +50,7 @@ func (c vfC27Case) String() string {
 	}
 	sort.Strings(used)
 	kind := []string{"Subscribe", "Unsubscribe", "Disconnect", "Refresh"}[c.Kind]
-	return fmt.Sprintf("Node0.%s target=%d labelFilter=(%s) proto=%s prePubs=%d options=%v {expireIn=%d info=%q data=%q source=%d metaTTL=%ds recoverOff=%d recoverCurEpoch=%v cacheMode=%v custom=(%d,%q) refreshExpireIn=%d refreshInfo=%q}",
+	return fmt.Sprintf("narrow=%d recoverForeignEpoch=%v ", c.Narrow, c.RecoverForeign) + fmt.Sprintf("Node0.%s target=%d labelFilter=(%s) proto=%s prePubs=%d options=%v {expireIn=%d info=%q data=%q source=%d metaTTL=%ds recoverOff=%d recoverCurEpoch=%v cacheMode=%v custom=(%d,%q) refreshExpireIn=%d refreshInfo=%q}",
 		kind, c.Target, c.LabelTF, c.Proto, c.PrePubs, used, c.ExpireIn, c.ChannelInfo, c.Data, c.Source, c.MetaTTL, c.RecoverOff, c.RecoverCur, c.CacheMode, c.CustomCode, c.CustomReason, c.RefreshExpire, c.RefreshInfo)
 }
 
@@ -78,6 +80,11 @@ func vfC27Gen(rt *rapid.T) vfC27Case {
 	c.RefreshExpire = rapid.SampledFrom([]int{-5, 40, 4000}).Draw(rt, "refreshExpire")
 	c.RefreshInfo = rapid.SampledFrom([]string{`{"i":2}`, `{"j":"k"}`}).Draw(rt, "refreshInfo")
 	c.LabelTF = vfTFGen(rt, "labeltf", 2)
+	c.Narrow = rapid.SampledFrom([]int{0, 0, 0, 1, 2, 2}).Draw(rt, "narrow")
+	if c.Narrow != 0 {
+		c.Target = 0
+	}
+	c.RecoverForeign = rapid.IntRange(0, 2).Draw(rt, "recoverForeign") == 0
 	return c
 }
 
@@ -123,9 +130,14 @@ func vfC27Snapshot(w *vfWorld, c *vfConn, ch string, framesFrom, eventsFrom int)
 		case p.Pub != nil:
 			s = append(s, fmt.Sprintf("push.pub ch=%s offset=%d data=%s", p.Channel, p.Pub.Offset, p.Pub.Data))
 		case p.Join != nil:
-			s = append(s, fmt.Sprintf("push.join ch=%s", p.Channel))
+			// joins / leaves of the node's other connection of this user depend on the hub's iteration order: own ones only
+			if p.Join.Info != nil && p.Join.Info.Client == c.Client.ID() {
+				s = append(s, fmt.Sprintf("push.join(own) ch=%s", p.Channel))
+			}
 		case p.Leave != nil:
-			s = append(s, fmt.Sprintf("push.leave ch=%s", p.Channel))
+			if p.Leave.Info != nil && p.Leave.Info.Client == c.Client.ID() {
+				s = append(s, fmt.Sprintf("push.leave(own) ch=%s", p.Channel))
+			}
 		default:
 			s = append(s, "push.other")
 		}
@@ -191,20 +203,40 @@ func vfC27Run(t *testing.T, cs vfC27Case, out *vfC27Out, isKnown func(string) bo
 		}
 		conns := make([]*vfConn, 2)
 		for i, w := range ws {
-			c := w.NewConn(vfConnCfg{Name: fmt.Sprintf("c%d", i), User: "u", Proto: cs.Proto})
+			c := w.NewConn(vfConnCfg{Name: fmt.Sprintf("c%d", i), User: "u", Proto: cs.Proto, Emulation: cs.Narrow == 2})
 			c.Connect(nil)
 			conns[i] = c
 		}
+		// one more connection of the same user on each node: a call narrowed to one connection (client id / session)
+		// must leave it alone on both nodes, any other call must treat it like the subject
+		by := make([]*vfConn, 2)
+		for i, w := range ws {
+			c := w.NewConn(vfConnCfg{Name: fmt.Sprintf("b%d", i), User: "u", Proto: cs.Proto, Emulation: cs.Narrow == 2})
+			c.Connect(nil)
+			by[i] = c
+		}
+		const ch2 = "ch2"
 		if cs.Kind == 1 {
-			for _, c := range conns {
+			for _, c := range []*vfConn{conns[0], conns[1], by[0], by[1]} {
 				if err := c.Client.Subscribe(ch, WithEmitPresence(true), WithEmitJoinLeave(true)); err != nil {
+					return "setup subscribe: " + err.Error()
+				}
+				// a second subscription that an unsubscribe from ch must not touch
+				if err := c.Client.Subscribe(ch2); err != nil {
 					return "setup subscribe: " + err.Error()
 				}
 			}
 		}
 		vfSettle()
 		from := []int{len(conns[0].Frames()), len(conns[1].Frames())}
+		byFrom := []int{len(by[0].Frames()), len(by[1].Frames())}
 		evFrom := []int{len(ws[0].Events()), len(ws[1].Events())}
+		// narrowing options for the i-th call (one call per subject connection when narrowed)
+		calls := 1
+		if cs.Narrow != 0 {
+			calls = 2
+			out.labels = append(out.labels, []string{"", "narrowed_by_client_id", "narrowed_by_session"}[cs.Narrow])
+		}
 
 		user := "u"
 		// target 2: a filter drawn from the whole grammar over the connections' labels {k:a, j:b} (it may or may not
@@ -242,7 +274,12 @@ func vfC27Run(t *testing.T, cs vfC27Case, out *vfC27Out, isKnown func(string) bo
 			add("Data", WithSubscribeData([]byte(cs.Data)))
 			if cs.Use["RecoverSince"] && cs.Use["Recovery"] {
 				// the epoch differs per node (separate memory brokers); use the empty epoch, which every stream accepts
-				opts = append(opts, WithRecoverSince(&StreamPosition{Offset: uint64(cs.RecoverOff)}))
+				sp := &StreamPosition{Offset: uint64(cs.RecoverOff)}
+				if cs.RecoverForeign {
+					sp.Epoch = "FOREIGNEPOCH"
+					out.labels = append(out.labels, "recover_since_foreign_epoch")
+				}
+				opts = append(opts, WithRecoverSince(sp))
 				nopts++
 			}
 			add("AutoCacheRecover", WithAutoCacheRecover(true))
@@ -257,7 +294,18 @@ func vfC27Run(t *testing.T, cs vfC27Case, out *vfC27Out, isKnown func(string) bo
 			case 3:
 				opts = append(opts, WithSubscribeLabelFilter(otherLabel))
 			}
-			callErr = ws[0].node.Subscribe(user, ch, opts...)
+			for i := 0; i < calls; i++ {
+				o := opts
+				switch cs.Narrow {
+				case 1:
+					o = append(append([]SubscribeOption{}, opts...), WithSubscribeClient(conns[i].Client.ID()))
+				case 2:
+					o = append(append([]SubscribeOption{}, opts...), WithSubscribeSession(conns[i].Client.sessionID()))
+				}
+				if err := ws[0].node.Subscribe(user, ch, o...); err != nil {
+					callErr = err
+				}
+			}
 		case 1:
 			var opts []UnsubscribeOption
 			if cs.Use["Custom"] {
@@ -273,7 +321,18 @@ func vfC27Run(t *testing.T, cs vfC27Case, out *vfC27Out, isKnown func(string) bo
 			case 3:
 				opts = append(opts, WithUnsubscribeLabelFilter(otherLabel))
 			}
-			callErr = ws[0].node.Unsubscribe(user, ch, opts...)
+			for i := 0; i < calls; i++ {
+				o := opts
+				switch cs.Narrow {
+				case 1:
+					o = append(append([]UnsubscribeOption{}, opts...), WithUnsubscribeClient(conns[i].Client.ID()))
+				case 2:
+					o = append(append([]UnsubscribeOption{}, opts...), WithUnsubscribeSession(conns[i].Client.sessionID()))
+				}
+				if err := ws[0].node.Unsubscribe(user, ch, o...); err != nil {
+					callErr = err
+				}
+			}
 		case 2:
 			var opts []DisconnectOption
 			if cs.Use["Custom"] {
@@ -293,7 +352,18 @@ func vfC27Run(t *testing.T, cs vfC27Case, out *vfC27Out, isKnown func(string) bo
 			case 3:
 				opts = append(opts, WithDisconnectLabelFilter(otherLabel))
 			}
-			callErr = ws[0].node.Disconnect(user, opts...)
+			for i := 0; i < calls; i++ {
+				o := opts
+				switch cs.Narrow {
+				case 1:
+					o = append(append([]DisconnectOption{}, opts...), WithDisconnectClient(conns[i].Client.ID()))
+				case 2:
+					o = append(append([]DisconnectOption{}, opts...), WithDisconnectSession(conns[i].Client.sessionID()))
+				}
+				if err := ws[0].node.Disconnect(user, o...); err != nil {
+					callErr = err
+				}
+			}
 		case 3:
 			var opts []RefreshOption
 			if cs.Use["RefreshExpired"] {
@@ -317,7 +387,18 @@ func vfC27Run(t *testing.T, cs vfC27Case, out *vfC27Out, isKnown func(string) bo
 			case 3:
 				opts = append(opts, WithRefreshLabelFilter(otherLabel))
 			}
-			callErr = ws[0].node.Refresh(user, opts...)
+			for i := 0; i < calls; i++ {
+				o := opts
+				switch cs.Narrow {
+				case 1:
+					o = append(append([]RefreshOption{}, opts...), WithRefreshClient(conns[i].Client.ID()))
+				case 2:
+					o = append(append([]RefreshOption{}, opts...), WithRefreshSession(conns[i].Client.sessionID()))
+				}
+				if err := ws[0].node.Refresh(user, o...); err != nil {
+					callErr = err
+				}
+			}
 		}
 		vfSettle()
 		time.Sleep(2 * time.Second)
@@ -325,8 +406,23 @@ func vfC27Run(t *testing.T, cs vfC27Case, out *vfC27Out, isKnown func(string) bo
 		if callErr != nil {
 			out.labels = append(out.labels, "call_returned_error")
 		}
-		local := vfC27Snapshot(ws[0], conns[0], ch, from[0], evFrom[0])
-		remote := vfC27Snapshot(ws[1], conns[1], ch, from[1], evFrom[1])
+		snap := func(i int) []string {
+			s := vfC27Snapshot(ws[i], conns[i], ch, from[i], evFrom[i])
+			other := func(c *vfConn) string {
+				c.Client.mu.RLock()
+				defer c.Client.mu.RUnlock()
+				_, ok := c.Client.channels[ch2]
+				return fmt.Sprintf("subscribed(%s)=%v", ch2, ok)
+			}
+			s = append(s, other(conns[i]))
+			for _, l := range vfC27Snapshot(ws[i], by[i], ch, byFrom[i], evFrom[i]) {
+				s = append(s, "bystander: "+l)
+			}
+			s = append(s, "bystander: "+other(by[i]))
+			return s
+		}
+		local := snap(0)
+		remote := snap(1)
 		if nopts >= 2 {
 			out.nontrivial = true
 		}
